@@ -78,12 +78,26 @@ Theorem sugar_class_call :
   forall c fields args kwn kwv args' kwv',
     class_fields c = Some fields -> rmap sugar args = Ok args' -> rmap sugar kwv = Ok kwv' ->
     sugar (Call (Const c) args kwn kwv) =
+    if existsb is_starred args' then Err (ValueErr DynamicArg) else
     match convert fields args' (combine kwn kwv') with
     | BOk assoc => Ok (dict_of_assoc assoc)
     | BErr r => Err (ValueErr r)
     end.
 Proof. exact SugarFacts.sugar_class_call. Qed.
 Print Assumptions sugar_class_call.
+
+(* F58: a starred positional argument cannot be bound to a field before the query runs (Python binds it by the length of the
+   sequence): the call is refused with ValueError, whatever else it contains - it used to be bound to ONE field, as {'x': *vals} *)
+Theorem starred_constructor_argument_refused :
+  forall c fields args kwn kwv args' kwv',
+    class_fields c = Some fields -> rmap sugar args = Ok args' -> rmap sugar kwv = Ok kwv' ->
+    existsb is_starred args' = true ->
+    sugar (Call (Const c) args kwn kwv) = Err (ValueErr DynamicArg).
+Proof.
+  intros c fields args kwn kwv args' kwv' Hc Ha Hk Hs.
+  rewrite (SugarFacts.sugar_class_call c fields args kwn kwv args' kwv' Hc Ha Hk), Hs. reflexivity.
+Qed.
+Print Assumptions starred_constructor_argument_refused.
 
 (* F17: the pinned commit's binding is NOT Python's *)
 Theorem dataclass_binds_pinned_refuted :
